@@ -31,6 +31,7 @@ import (
 	"reflect"
 	"strings"
 
+	"github.com/iden3/go-iden3-core/v2/w3c"
 	"github.com/iden3/go-iden3-crypto/constants"
 	"github.com/iden3/go-iden3-crypto/poseidon"
 	"github.com/iden3/go-merkletree-sql/v2"
@@ -252,9 +253,17 @@ func (a *Ans) coq() string {
 // case inputs (replayable)
 
 type TreeSpec struct {
-	Seed  int64  `json:"seed"`
-	N     int    `json:"n"`
-	Style string `json:"style"` // dense | sparse | clustered
+	Seed     int64    `json:"seed"`
+	N        int      `json:"n"`
+	Style    string   `json:"style"`              // dense | sparse | clustered | explicit
+	Explicit []uint64 `json:"explicit,omitempty"` // style explicit: the revoked nonces themselves
+}
+
+// RootPair documents a weak-comparison probe: the real revocation root and the different
+// root the forged proof computes to (decimal).
+type RootPair struct {
+	True   string `json:"true_root"`
+	Forged string `json:"forged_root"`
 }
 
 type Op struct {
@@ -301,6 +310,8 @@ type Input struct {
 	Honest     string    `json:"honest_state,omitempty"` // decimal value of the honest issuer state
 	MustReject bool      `json:"must_reject,omitempty"`  // the fault changes a value the check depends on
 	SameAs     int       `json:"same_as,omitempty"`      // 1 + class of the honest answer when the edit is benign
+	Roots      *RootPair `json:"roots,omitempty"`        // weak-comparison probes only
+	DID        string    `json:"issuer_did,omitempty"`   // registry stream: method-specific id put into the context with WithIssuerDID
 	// other streams
 	HTTP   *HTTPIn   `json:"http,omitempty"` // also the transport of an e2e case
 	Coerce *CoerceIn `json:"coerce,omitempty"`
@@ -478,11 +489,16 @@ type stubResolver struct {
 	kind int
 	rs   verifiable.RevocationStatus
 	exp  verifiable.CredentialStatus // what ValidateCredentialStatus was called with
+	did  *w3c.DID                    // the issuer DID the caller put into the context (or nil)
 }
 
-func (s stubResolver) Resolve(_ context.Context, got verifiable.CredentialStatus) (verifiable.RevocationStatus, error) {
+func (s stubResolver) Resolve(ctx context.Context, got verifiable.CredentialStatus) (verifiable.RevocationStatus, error) {
 	switch s.kind {
 	case 0:
+		// answers only inside the caller's context (the issuer DID travels with it)
+		if verifiable.GetIssuerDID(ctx) != s.did {
+			return verifiable.RevocationStatus{}, errors.New("stub resolver: issuer DID of the caller's context not visible")
+		}
 		// answers only when handed the caller's credential status
 		if got.ID != s.exp.ID || got.Type != s.exp.Type || got.RevocationNonce != s.exp.RevocationNonce ||
 			got.StatusIssuer != s.exp.StatusIssuer {
@@ -497,10 +513,12 @@ func (s stubResolver) Resolve(_ context.Context, got verifiable.CredentialStatus
 }
 
 type vobs struct {
-	ts   int      // validateTreeState
-	root *big.Int // rootFromMerkleTreeProof (nil = error)
-	cls  int
-	msg  string
+	didBroken bool     // GetIssuerDID(WithIssuerDID(ctx, did)) != did, or a DID in the empty context
+	dfltKind  int      // GetStatusResolver(type): stub kind, -1 not registered, -2 something else
+	ts        int      // validateTreeState
+	root      *big.Int // rootFromMerkleTreeProof (nil = error)
+	cls       int
+	msg       string
 }
 
 func classify(err error) int {
@@ -551,11 +569,20 @@ func runValidate(in *Input) (o vobs, buildErr error) {
 	// the registry scenario
 	cs := verifiable.CredentialStatus{ID: "http://status.test/" + in.Type,
 		Type: verifiable.CredentialStatusType(in.Type), RevocationNonce: in.Nonce}
+	ctx := context.Background()
+	var did *w3c.DID
+	if in.DID != "" {
+		did = &w3c.DID{Method: "example", ID: in.DID, IDStrings: []string{in.DID}}
+		ctx = verifiable.WithIssuerDID(ctx, did)
+	}
+	if verifiable.GetIssuerDID(ctx) != did || verifiable.GetIssuerDID(context.Background()) != nil {
+		o.didBroken = true
+	}
 	build := func(reg func(t verifiable.CredentialStatusType, r verifiable.CredentialStatusResolver),
 		del func(t verifiable.CredentialStatusType)) {
 		for _, op := range in.Ops {
 			if op.Reg {
-				reg(verifiable.CredentialStatusType(op.Type), stubResolver{kind: op.Kind, rs: rs, exp: cs})
+				reg(verifiable.CredentialStatusType(op.Type), stubResolver{kind: op.Kind, rs: rs, exp: cs, did: did})
 			} else {
 				del(verifiable.CredentialStatusType(op.Type))
 			}
@@ -593,7 +620,15 @@ func runValidate(in *Input) (o vobs, buildErr error) {
 				o.msg = fmt.Sprint(r)
 			}
 		}()
-		_, err := verifiable.ValidateCredentialStatus(context.Background(), cs, opts...)
+		// GetStatusResolver: the default registry as the package-level accessor sees it
+		if r, err := verifiable.GetStatusResolver(cs.Type); err != nil {
+			o.dfltKind = -1
+		} else if sr, ok := r.(stubResolver); ok {
+			o.dfltKind = sr.kind
+		} else {
+			o.dfltKind = -2
+		}
+		_, err := verifiable.ValidateCredentialStatus(ctx, cs, opts...)
 		o.cls = classify(err)
 		if err != nil {
 			o.msg = err.Error()
@@ -631,6 +666,9 @@ func (g *gen) addCase(in *Input, coq string) {
 
 // revoked set of a tree, deterministic in the spec
 func genSet(spec TreeSpec) []uint64 {
+	if spec.Style == "explicit" {
+		return append([]uint64{}, spec.Explicit...)
+	}
 	r := rand.New(rand.NewSource(spec.Seed))
 	var out []uint64
 	seen := map[uint64]bool{}
@@ -667,7 +705,7 @@ func genSet(spec TreeSpec) []uint64 {
 }
 
 func (g *gen) tree(spec TreeSpec) (*treeInfo, error) {
-	key := fmt.Sprintf("%d/%d/%s", spec.Seed, spec.N, spec.Style)
+	key := fmt.Sprintf("%d/%d/%s/%v", spec.Seed, spec.N, spec.Style, spec.Explicit)
 	if t, ok := g.trees[key]; ok {
 		return t, nil
 	}
@@ -1011,6 +1049,16 @@ func (g *gen) oracles(in *Input, o vobs, exp, refTs int, refRoot *big.Int) {
 		g.rep.Fail("c09-panic", "ValidateCredentialStatus panicked: "+o.msg, in)
 		return
 	}
+	if o.didBroken {
+		g.rep.Fail("c09-context-did", "GetIssuerDID does not return what WithIssuerDID stored (or finds a DID in an empty context)", in)
+	}
+	wantDflt := selected(in)
+	if in.OptK == 1 {
+		wantDflt = 1 // the failing resolver registered for the type in the default registry
+	}
+	if o.cls != clsPanic && o.dfltKind != wantDflt {
+		g.rep.Fail("c09-registry-get", fmt.Sprintf("GetStatusResolver(%q) gave resolver kind %d, the Register/Delete history gives %d", in.Type, o.dfltKind, wantDflt), in)
+	}
 	if o.cls != exp {
 		g.rep.Fail("c09-decision-mismatch", fmt.Sprintf("result class %s, the property demands %s (%s)",
 			clsName(o.cls), clsName(exp), o.msg), in)
@@ -1231,6 +1279,9 @@ func (g *gen) registryStream() error {
 			Nonce: nonce, Ans: h, Tree: &spec, ProofNonce: nonce, Honest: st.String()}
 		if g.rng.Intn(12) == 0 {
 			in.OptK = 3
+		}
+		if i%2 == 0 {
+			in.DID = fmt.Sprintf("issuer%d", i)
 		}
 		g.rep.Count(fmt.Sprintf("registry:optk%d:selected%d", in.OptK, selected(&in)))
 		if err := g.validateCase(&in); err != nil {
@@ -1931,6 +1982,12 @@ func Run(cfg *common.Config) (*common.Report, error) {
 	}
 	if err := g.registryStream(); err != nil {
 		return nil, err
+	}
+	if cfg.Thorough() {
+		// thorough tier only, time-boxed: partial collisions of lossy root comparisons
+		if err := g.weakCompareStream(); err != nil {
+			return nil, err
+		}
 	}
 	if err := g.httpStream(); err != nil {
 		return nil, err
